@@ -1,6 +1,6 @@
 """C37  Byte-range bookkeeping is exact  (Engine H, reachable-state closure, exhaustive).
 
-Spans over universe 0..U-1 (U=8) and DataSpans over 0..D-1 (D=6, byte values {x,y}).
+Spans over universe 0..U-1 (U=8) and DataSpans over 0..D-1 (D=6, byte values {0x00, 0xff}).
 BFS from the empty object over EVERY operation until no new INTERNAL state (the raw
 _spans / spans list, not the abstract set) appears: the closure is complete for the
 universe, so every internal representation the code can reach there is a start state for
@@ -25,7 +25,7 @@ def B(x):
     return BASE[0] + x          # a NEW int object whenever the result is > 256
 
 ASSUMPTIONS = [
-    "universe 0..7 (Spans) / 0..5 with 2 byte values (DataSpans), explored once at offsets 0.. and once shifted by 1000 with freshly computed (non-interned) int objects, so that neither small-int identity nor a magnitude-dependent slip can hide; beyond that the code only compares and subtracts offsets",
+    "universe 0..7 (Spans) / 0..5 with the 2 extreme byte values 0x00 and 0xff (DataSpans), explored once at offsets 0.. and once shifted by 1000 with freshly computed (non-interned) int objects, so that neither small-int identity nor a magnitude-dependent slip can hide; beyond that the code only compares and subtracts offsets",
     "zero-length add/get are outside the API contract (asserted against by Spans.add) and are not issued",
 ]
 
@@ -144,7 +144,7 @@ def spans_binary_chunk(chunk, U, hists):
 
 
 # ------------------------------------------------------------------ DataSpans
-VALS = (b"x", b"y")
+VALS = (b"\x00", b"\xff")      # the two extreme byte values (a sentinel or sign slip shows at one of them)
 
 
 def ds_ops(D, maxlen):
@@ -313,7 +313,7 @@ def run(tier, seed):
         "spans_internal_states": n,
         "dataspans_internal_states": res.counts.get("ds_states", 0),
         "spans_pairs_for_binary_ops": len(pairs),
-        "rule": "reachable-state closure: BFS over all add/remove (Spans, universe 0..%d) and add/remove/pop (DataSpans, universe 0..%d, values x/y, add length <= %d) until no new internal representation appears; every transition runs the real class and is compared with a set/dict reference; all ordered pairs of Spans states under + - & += -= copy" % (U - 1, D - 1, maxlen),
+        "rule": "reachable-state closure: BFS over all add/remove (Spans, universe 0..%d) and add/remove/pop (DataSpans, universe 0..%d, byte values 0x00 and 0xff, add length <= %d) until no new internal representation appears; every transition runs the real class and is compared with a set/dict reference; all ordered pairs of Spans states under + - & += -= copy" % (U - 1, D - 1, maxlen),
     }
     return res, cov
 
